@@ -307,7 +307,11 @@ func (s *storage) bootstrap(config Config) (err error) {
 	}()
 	s.appendEntry(config.encode())
 	s.commitLog(1)
-	s.setTerm(1)
+	if s.term < 1 {
+		// a node that is not bootstrapped yet answers vote requests,
+		// so it may already be in a later term: keep that term and vote
+		s.setTerm(1)
+	}
 	s.lastLogIndex, s.lastLogTerm = config.Index, config.Term
 	return nil
 }
